@@ -3,6 +3,7 @@ from the context; names the code binds itself are not)."""
 from vrf.pyvc.spec import C, ASSUME, CLASS, CLASSES
 from vrf.pyvc.types import parse_ty
 import contracts.codegen_decls  # noqa: Idents
+import contracts.errors  # noqa: PNode and its exception_kwargs
 
 CLASSES["Idents"].fields.update({k: parse_ty(v) for k, v in {
     "declared": "Set[Str]", "undeclared": "Set[Str]", "locally_declared": "Set[Str]"}.items()})
@@ -96,7 +97,8 @@ ASSUME("mako.parsetree:<child>.accept_visitor", params={"self": "ChildNode", "se
                 ("same-sets", "same(self_.undeclared, old(self_.undeclared)) and same(self_.locally_declared, old(self_.locally_declared)) and same(self_.argument_declared, old(self_.argument_declared)) and same(self_.declared, old(self_.declared))")],
        raises={"*": {}},
        note="R3: each child node's visit method is one of the visitors verified here (or raises CompileException)")
-CLASS("mako.parsetree:<tag>", name="TagLike", bases=["CodeNode"], fields={"nodes": "List[ChildNode]", "is_anonymous": "Bool", "is_block": "Bool", "funcname": "Str", "name": "Str"})
+CLASSES["PNode"].properties["exception_kwargs"] = "mako.parsetree:Node.exception_kwargs"
+CLASS("mako.parsetree:<tag>", name="TagLike", bases=["CodeNode", "PNode"], fields={"nodes": "List[ChildNode]", "is_anonymous": "Bool", "is_block": "Bool", "funcname": "Str", "name": "Str"})
 CLASSES["Idents"].fields["node"] = parse_ty("Any")
 
 _DEMAND_AT_LEAST = ("forall(lambda k: implies(k in old(self.undeclared) or %s, k in self.undeclared), ty='Str')" % _NEW_UNDECLARED)
@@ -121,3 +123,15 @@ C("mako.codegen:_Identifiers.visitCallTag", params={"self": "Idents", "node": "T
            ("seen from outside, a call with content binds nothing", "implies(not same(node, self.node), %s and self.argument_declared == old(self.argument_declared) and self.locally_declared == old(self.locally_declared))" % _DEMAND),
            ("inside its body, the names in its args= are arguments", "implies(same(node, self.node), %s)" % _ARGS_AT_LEAST)],
   raises={"*": {}}, locals={"ident": "Str", "n": "ChildNode"}, props=["C04"], native_skip=True)
+
+# ---- def / block registration: names unique, named blocks not inside defs or calls (C06) ---------------
+CLASSES["Idents"].fields.update({"topleveldefs": parse_ty("Dict[Str,Obj[TagLike]]"), "closuredefs": parse_ty("Dict[Str,Obj[TagLike]]")})
+_CLASH = "(node.funcname in old(collection) and not same(old(collection)[node.funcname], node) and (node.is_block or old(collection)[node.funcname].is_block))"
+
+C("mako.codegen:_Identifiers._check_name_exists", params={"self": "Idents", "collection": "Dict[Str,Obj[TagLike]]", "node": "TagLike"},
+  requires=[("entries-are-nodes", "forall(lambda k: implies(k in collection, collection[k] is not None), ty='Str')")],
+  modifies=["collection"],
+  ensures=[("registered-under-its-name", "collection == dict_set(old(collection), node.funcname, node)"), ("no-clash", "not %s" % _CLASH)],
+  raises={"CompileException": {"when": _CLASH.replace("old(collection)", "collection"), "ensures": [("registered-anyway", "collection == dict_set(old(collection), node.funcname, node)")]}},
+  props=["C06"], native_skip=True,
+  note="a %def and a %def of one name may shadow each other; as soon as a block is involved the name must be unique")
